@@ -12,7 +12,7 @@ use crate::Serpent;
 use cipher::KeyInit;
 use refmodels::serpent as r;
 
-//@ harness name=serpent_key_pad prop=C08,C20 tier=quick bits=261 est=15 desc="L: expand_key(key[..len], 8 len) == key || bit 1 || zeros for every byte length len in 16..=32 (symbolic) and every key"
+//@ harness name=serpent_key_pad prop=C08,C20 tier=quick bits=261 est=10 desc="L: expand_key(key[..len], 8 len) == key || bit 1 || zeros for every byte length len in 16..=32 (symbolic) and every key"
 verif_harness! {
     name: serpent_key_pad,
     bytes: 33,
@@ -57,7 +57,7 @@ pub fn stub_expand_key(source: &[u8], len_bits: usize) -> [u8; 32] {
     crate::expand_key(source, len_bits)
 }
 
-//@ harness name=serpent_key_schedule prop=C08,C20 tier=quick bits=517 stub=1 est=320 need=10 desc="W: Serpent::new_from_slice(key[..len]) for symbolic len in 16..=32, every key: expand_key is called exactly once with (key[..len], 8 len) and, for every 256-bit value P it may return, round_keys == oracle(P): prekey recurrence w_i = (w_i-8 ^ w_i-5 ^ w_i-3 ^ w_i-1 ^ PHI ^ i) <<< 11, K_i = S_{(3-i) mod 8}(w_4i..w_4i+3), little-endian words; apply_s uninterpreted (shared); with serpent_key_pad: P = key || 1 || 0.."
+//@ harness name=serpent_key_schedule prop=C08,C20 tier=quick bits=517 stub=1 est=265 need=10 desc="W: Serpent::new_from_slice(key[..len]) for symbolic len in 16..=32, every key: expand_key is called exactly once with (key[..len], 8 len) and, for every 256-bit value P it may return, round_keys == oracle(P): prekey recurrence w_i = (w_i-8 ^ w_i-5 ^ w_i-3 ^ w_i-1 ^ PHI ^ i) <<< 11, K_i = S_{(3-i) mod 8}(w_4i..w_4i+3), little-endian words; apply_s uninterpreted (shared); with serpent_key_pad: P = key || 1 || 0.."
 verif_harness! {
     name: serpent_key_schedule,
     bytes: 65,
